@@ -3194,7 +3194,10 @@ pub fn s_raw(cx: &mut Ctx, dbg: bool) {
                 7..=9 => {
                     cx_op!(cx, format!("raw.get {}", k));
                 }
-                10 | 11 => {
+                10 => {
+                    cx_op!(cx, format!("raw.getmut {} {}", k, 1000 + cx.rng.below(1000)));
+                }
+                11 => {
                     cx_op!(cx, format!("raw.find {}", k));
                 }
                 12..=15 => {
@@ -3491,6 +3494,7 @@ pub fn s_eda(cx: &mut Ctx) {
         idx.push(cx.rng.below(1 << 32));
         idx.push(cx.rng.below(b30));
     }
+    cx.op("eda.consts".into());
     for i in idx {
         cx_op!(cx, format!("eda.signal {}", i));
         if i < b30 {
